@@ -28,6 +28,11 @@ Record MCoh (m : mstate) : Prop := {
   (* poolIPsInUse[n][x] is the number of allocations under pool name n holding x; no zero entries *)
   coh_count : forall n x, count m n x = nz (users (abs m) n x);
   coh_use_keys : forall n, NoDup (map fst (use_of m n));
+  (* poolIPV4InUse / poolIPV6InUse: the same counts, for the addresses of their family only *)
+  coh_count4 : forall n x, aget ip_eqb x (use4_of m n) = if is4 x then nz (users (abs m) n x) else None;
+  coh_count6 : forall n x, aget ip_eqb x (use6_of m n) = if is6 x then nz (users (abs m) n x) else None;
+  coh_use4_keys : forall n, NoDup (map fst (use4_of m n));
+  coh_use6_keys : forall n, NoDup (map fst (use6_of m n));
   (* neither the "incoherent state" panic nor a write to a nil map was reached *)
   coh_nopanic : m_panic m = false
 }.
@@ -40,6 +45,10 @@ Proof.
   - intros x e [].
   - intros x p t. split; [discriminate|]. intros [al [[] _]].
   - intros x t. split; [intros []|]. intros [al [[] _]].
+  - intros n. constructor.
+  - intros n x. destruct (is4 x); reflexivity.
+  - intros n x. destruct (is6 x); reflexivity.
+  - intros n. constructor.
   - intros n. constructor.
 Qed.
 
@@ -108,6 +117,37 @@ Qed.
 Lemma nz_some c : (0 < c)%Z -> nz c = Some c.
 Proof. intros H. unfold nz. destruct (c =? 0)%Z eqn:E; [apply Z.eqb_eq in E; lia|reflexivity]. Qed.
 
+Lemma forallb_false_ex {A} (f : A -> bool) l : forallb f l = false -> exists x, In x l /\ f x = false.
+Proof.
+  induction l as [|y l IH]; cbn; [discriminate|]. intros H. apply andb_false_iff in H. destruct H as [H|H].
+  - exists y. auto.
+  - destruct (IH H) as [x [H1 H2]]. exists x. auto.
+Qed.
+
+Lemma is4_or_is6 x : is4 x = false -> is6 x = true.
+Proof. unfold is4, is6. destruct (ip_fam x); cbn; congruence. Qed.
+
+(* presence of the inner family map of a pool under which an address of that family is held *)
+Lemma twin_present (sel : ip -> bool) (um : list (poolid * list (ip * Z))) a n (ips : list ip) :
+  (forall x, aget ip_eqb x (inner (aget N.eqb n um)) = if sel x then nz (users a n x) else None) ->
+  (forall x, In x ips -> (0 < users a n x)%Z) ->
+  forallb (fun x => negb (sel x)) ips = true \/ aget N.eqb n um <> None.
+Proof.
+  intros Hc Hu. destruct (forallb (fun x => negb (sel x)) ips) eqn:E; [left; reflexivity|right].
+  apply forallb_false_ex in E. destruct E as [x [Hx Hs]]. apply negb_false_iff in Hs.
+  specialize (Hc x). rewrite Hs, (nz_some _ (Hu x Hx)) in Hc.
+  destruct (aget N.eqb n um); [discriminate|]. discriminate.
+Qed.
+
+(* the count update of a family map, from its coherence *)
+Lemma twin_after_unassign (sel : ip -> bool) (got : option Z) (c u u' : Z) (b : bool) x :
+  c = (if sel x then u else 0)%Z -> (0 <= u')%Z -> u = (u' + (if b then 1 else 0))%Z ->
+  got = (if b then nz (c - (if sel x then 1 else 0))%Z else (if sel x then nz u else None)) ->
+  got = if sel x then nz u' else None.
+Proof.
+  intros -> Hu' -> ->. destruct (sel x), b; try reflexivity; f_equal; lia.
+Qed.
+
 Lemma is_nil_true {A} (l : list A) : is_nil l = true <-> l = [].
 Proof. destruct l; cbn; split; congruence. Qed.
 
@@ -174,6 +214,8 @@ Proof.
     pose proof (users_pos (abs m) (s, al) x0 Hin) as Hu. cbn [snd] in Hu. rewrite Ei in Hu. specialize (Hu (or_introl eq_refl)).
     pose proof (coh_count m HC (a_pool al) x0) as Hc. rewrite (nz_some _ Hu) in Hc.
     unfold count, use_of in Hc. destruct (aget N.eqb (a_pool al) (m_use m)); [discriminate|]. discriminate. }
+  assert (Hupos : forall x, In x (a_ips al) -> (0 < users (abs m) (a_pool al) x)%Z).
+  { intros x Hx. apply (users_pos (abs m) (s, al) x Hin Hx). }
   constructor.
   - (* key present for every remaining tenant *)
     intros x e He. apply Hten in He. destruct He as [He Hne].
@@ -236,9 +278,41 @@ Proof.
     + f_equal. lia.
   - (* keys of the count maps *)
     intros n. unfold m'. apply ufold_keys; [exact Hpres|]. rewrite U0. apply (coh_use_keys m HC).
+  - (* poolIPV4InUse *)
+    intros n x. rewrite Habs. unfold use4_of, m'. rewrite ufold_use4. change (m_use4 m0) with (m_use4 m).
+    rewrite (uu_fold_count _ _ _ _ n x Hind (twin_present is4 (m_use4 m) (abs m) (a_pool al) (a_ips al) (coh_count4 m HC (a_pool al)) Hupos)).
+    apply (twin_after_unassign is4 _ (cnt x (use4_of m n)) (users (abs m) n x) _ ((a_pool al =? n) && mem_ip x (a_ips al)) x).
+    + unfold cnt. rewrite (coh_count4 m HC). destruct (is4 x); [|reflexivity]. unfold nz.
+      destruct (users (abs m) n x =? 0)%Z eqn:E; [apply Z.eqb_eq in E; congruence|reflexivity].
+    + apply users_nonneg.
+    + apply (users_remove (abs m) s al n x Hnd Hin).
+    + rewrite (N.eqb_sym n (a_pool al)). fold (use4_of m n). destruct ((a_pool al =? n) && mem_ip x (a_ips al)); [reflexivity|].
+      apply (coh_count4 m HC).
+  - (* poolIPV6InUse *)
+    intros n x. rewrite Habs. unfold use6_of, m'. rewrite ufold_use6. change (m_use6 m0) with (m_use6 m).
+    rewrite (uu_fold_count _ _ _ _ n x Hind (twin_present is6 (m_use6 m) (abs m) (a_pool al) (a_ips al) (coh_count6 m HC (a_pool al)) Hupos)).
+    apply (twin_after_unassign is6 _ (cnt x (use6_of m n)) (users (abs m) n x) _ ((a_pool al =? n) && mem_ip x (a_ips al)) x).
+    + unfold cnt. rewrite (coh_count6 m HC). destruct (is6 x); [|reflexivity]. unfold nz.
+      destruct (users (abs m) n x =? 0)%Z eqn:E; [apply Z.eqb_eq in E; congruence|reflexivity].
+    + apply users_nonneg.
+    + apply (users_remove (abs m) s al n x Hnd Hin).
+    + rewrite (N.eqb_sym n (a_pool al)). fold (use6_of m n). destruct ((a_pool al =? n) && mem_ip x (a_ips al)); [reflexivity|].
+      apply (coh_count6 m HC).
+  - intros n. unfold use4_of, m'. rewrite ufold_use4. change (m_use4 m0) with (m_use4 m). apply uu_fold_keys.
+    + apply (twin_present is4 (m_use4 m) (abs m) (a_pool al) (a_ips al) (coh_count4 m HC (a_pool al)) Hupos).
+    + apply (coh_use4_keys m HC).
+  - intros n. unfold use6_of, m'. rewrite ufold_use6. change (m_use6 m0) with (m_use6 m). apply uu_fold_keys.
+    + apply (twin_present is6 (m_use6 m) (abs m) (a_pool al) (a_ips al) (coh_count6 m HC (a_pool al)) Hupos).
+    + apply (coh_use6_keys m HC).
   - (* no panic *)
-    unfold m'. apply ufold_panic; [exact Hind|exact Hpres|exact (coh_nopanic m HC)|].
-    intros x Hx. rewrite P0. apply del_panics_false; [exact Hpnd|]. intros p Hp. apply (Hmine x p Hx Hp).
+    unfold m'. apply ufold_panic; [exact Hind|exact Hpres|exact (coh_nopanic m HC)| |].
+    + intros x Hx. rewrite P0. apply del_panics_false; [exact Hpnd|]. intros p Hp. apply (Hmine x p Hx Hp).
+    + intros x Hx. change (m_use4 m0) with (m_use4 m). change (m_use6 m0) with (m_use6 m).
+      destruct (is4 x) eqn:E4.
+      * pose proof (coh_count4 m HC (a_pool al) x) as Hc. rewrite E4, (nz_some _ (Hupos x Hx)) in Hc.
+        unfold use4_of in Hc. destruct (aget N.eqb (a_pool al) (m_use4 m)); [discriminate|discriminate].
+      * pose proof (coh_count6 m HC (a_pool al) x) as Hc. rewrite (is4_or_is6 x E4), (nz_some _ (Hupos x Hx)) in Hc.
+        unfold use6_of in Hc. destruct (aget N.eqb (a_pool al) (m_use6 m)); [discriminate|discriminate].
 Qed.
 
 Lemma AllocsOk_unassign a s : AllocsOk a -> AllocsOk (unassign a s).
@@ -317,6 +391,8 @@ Proof.
   { intros x p. unfold owner, m'. rewrite (afold_ports s al _ m0 x Hind).
     change (ports_on m0 x) with (ports_on m x).
     destruct (mem_ip x (a_ips al)); cbn; [|reflexivity]. apply aget_add_ports. }
+  assert (Ha' : abs m' = {| s_pools := s_pools (abs m); allocated := (s, al) :: allocated (abs m) |}).
+  { unfold abs. rewrite Hal', Hpl'. reflexivity. }
   constructor.
   - intros x e He. apply Hten in He. unfold m'. rewrite (afold_key s al _ m0 x Hind).
     change (key_of m0 x) with (key_of m x).
@@ -364,6 +440,26 @@ Proof.
     + symmetry. apply nz_some. pose proof (users_nonneg (abs m) n x). lia.
     + f_equal. lia.
   - intros n. unfold m'. apply afold_keys. change (use_of m0 n) with (use_of m n). apply (coh_use_keys m HC).
+  - intros n x. rewrite Ha'. unfold use4_of, m'. rewrite afold_use4. change (m_use4 m0) with (m_use4 m).
+    rewrite (ua_fold_count _ _ _ _ n x Hind), users_cons, (N.eqb_sym n (a_pool al)). fold (use4_of m n).
+    pose proof (coh_count4 m HC n x) as Hc. unfold cnt. rewrite Hc.
+    pose proof (users_nonneg (abs m) n x) as Hu. destruct (is4 x); [|rewrite andb_false_r; reflexivity].
+    rewrite andb_true_r. destruct ((a_pool al =? n) && mem_ip x (a_ips al)).
+    + unfold nz at 1. destruct (users (abs m) n x =? 0)%Z eqn:E.
+      * apply Z.eqb_eq in E. rewrite E. reflexivity.
+      * symmetry. apply nz_some. lia.
+    + f_equal. lia.
+  - intros n x. rewrite Ha'. unfold use6_of, m'. rewrite afold_use6. change (m_use6 m0) with (m_use6 m).
+    rewrite (ua_fold_count _ _ _ _ n x Hind), users_cons, (N.eqb_sym n (a_pool al)). fold (use6_of m n).
+    pose proof (coh_count6 m HC n x) as Hc. unfold cnt. rewrite Hc.
+    pose proof (users_nonneg (abs m) n x) as Hu. destruct (is6 x); [|rewrite andb_false_r; reflexivity].
+    rewrite andb_true_r. destruct ((a_pool al =? n) && mem_ip x (a_ips al)).
+    + unfold nz at 1. destruct (users (abs m) n x =? 0)%Z eqn:E.
+      * apply Z.eqb_eq in E. rewrite E. reflexivity.
+      * symmetry. apply nz_some. lia.
+    + f_equal. lia.
+  - intros n. unfold use4_of, m'. rewrite afold_use4. apply ua_fold_keys. apply (coh_use4_keys m HC).
+  - intros n. unfold use6_of, m'. rewrite afold_use6. apply ua_fold_keys. apply (coh_use6_keys m HC).
   - unfold m'. rewrite afold_panic. exact (coh_nopanic m HC).
 Qed.
 
